@@ -5,3 +5,10 @@ open ZnVerif.Properties.C18Chain
 #print axioms call_sites_untouched
 #print axioms depth_never_drops
 #print axioms failed_call_keeps_its_frame
+#print axioms expression_leaves_frames_untouched
+#print axioms while_condition_error_at_loop_line
+#print axioms declaration_error_at_declaration_line
+#print axioms started_frame_stays_started
+#print axioms statement_marks_frame_started
+#print axioms arity_error_frame_unstarted
+#print axioms not_a_method_frame_unstarted
